@@ -278,3 +278,34 @@ type IS64 struct {
 	I uint64 `json:",string"`
 	P uint64
 }
+
+// Recursive types: containers that refer to themselves, a self-referential struct, a pointer cycle type, a mutually
+// recursive pair. Values are small and finite (depth 0..3).
+type Tree map[string]Tree
+
+// List is a slice of itself.
+type List []List
+
+// Node refers to itself through a pointer, a slice and a map.
+type Node struct {
+	V    int
+	Next *Node
+	Kids []Node
+	M    map[string]*Node
+}
+
+// P is a pointer to itself (legal in Go; every finite value ends in nil).
+type P *P
+
+// Ma and Mb refer to each other.
+type Ma struct {
+	N int
+	B *Mb
+}
+
+// Mb is the other half of the pair.
+type Mb struct {
+	S  string
+	A  *Ma
+	As []Ma
+}
